@@ -33,6 +33,17 @@ type Machine struct {
 	Distinct func(tok, lit string) bool
 	depth    int
 	seq      int
+	// labels: curLabel is the label of the statement about to be executed, brLabel the target of a
+	// labelled break/continue that is on its way out
+	curLabel string
+	brLabel  string
+	// init functions of moq's packages run once, before the first read of one of the package's variables
+	inInit   bool
+	initDone map[string]bool
+	// pendingTArgs: the type arguments of the generic call that is about to enter its body
+	pendingTArgs []types.Type
+	// pendingRecvTArgs: the type arguments of the generic receiver type of the method call about to start
+	pendingRecvTArgs []types.Type
 }
 
 // Note is an observation made by an Ext model.
@@ -121,7 +132,19 @@ func (c *Choices) Describe() string {
 	return strings.Join(ss, "; ")
 }
 
+// deferred is a deferred call: the function value and its arguments, evaluated when the defer statement ran.
+type deferred struct {
+	pos  token.Pos
+	fn   Value
+	args []Value
+}
+
 type frame struct {
+	// isFunc marks the frame of a function call; defers are collected there
+	isFunc bool
+	defers []deferred
+	// targs binds the type parameters of a generic function to the type arguments of this call
+	targs map[*types.TypeParam]types.Type
 	vars   map[types.Object]*Value
 	parent *frame
 	info   *types.Info
@@ -195,6 +218,14 @@ func (m *Machine) Call(pos token.Pos, fn Value, args []Value) (Value, error) {
 // CallFunc calls a declared function or method.
 func (m *Machine) CallFunc(pos token.Pos, fn *types.Func, recv Value, args []Value) (Value, error) {
 	fn = fn.Origin()
+	// a call through an interface declared in moq: the method of the dynamic value
+	if sig, _ := fn.Type().(*types.Signature); sig != nil && sig.Recv() != nil {
+		if _, isIface := sig.Recv().Type().Underlying().(*types.Interface); isIface {
+			if cm := m.dynamicMethod(recv, fn.Name()); cm != nil {
+				fn = cm.Origin()
+			}
+		}
+	}
 	// the iterators of go/types lists are their Len/At pairs (that is how go/types defines them)
 	if pair, ok := typesIterators[fn.Name()]; ok && fn.Pkg() != nil && fn.Pkg().Path() == "go/types" && len(args) == 0 {
 		if _, hasOwn := m.Ext[fn.FullName()]; !hasOwn {
@@ -262,7 +293,55 @@ func (m *Machine) callBody(pos token.Pos, info *types.Info, env *frame, recvFL *
 	if m.depth > 200 {
 		return nil, undecided(pos, "interpretation depth exceeded (recursion)")
 	}
-	fr := &frame{vars: map[types.Object]*Value{}, parent: env, info: info}
+	fr := &frame{vars: map[types.Object]*Value{}, parent: env, info: info, isFunc: true}
+	if ta := m.pendingTArgs; ta != nil {
+		m.pendingTArgs = nil
+		if ft.TypeParams != nil {
+			k := 0
+			for _, f := range ft.TypeParams.List {
+				for _, n := range f.Names {
+					if tn, ok := info.Defs[n].(*types.TypeName); ok && k < len(ta) {
+						if tp, ok := tn.Type().(*types.TypeParam); ok {
+							if fr.targs == nil {
+								fr.targs = map[*types.TypeParam]types.Type{}
+							}
+							fr.targs[tp] = ta[k]
+						}
+					}
+					k++
+				}
+			}
+		}
+	}
+	if ra := m.pendingRecvTArgs; ra != nil {
+		m.pendingRecvTArgs = nil
+		if recvFL != nil && len(recvFL.List) == 1 {
+			// func (m orderedMap[K, V]) ...: K, V are declared by the receiver's type expression
+			te := recvFL.List[0].Type
+			if st, ok := te.(*ast.StarExpr); ok {
+				te = st.X
+			}
+			var ids []ast.Expr
+			switch x := te.(type) {
+			case *ast.IndexExpr:
+				ids = []ast.Expr{x.Index}
+			case *ast.IndexListExpr:
+				ids = x.Indices
+			}
+			for k, ide := range ids {
+				if id, ok := ide.(*ast.Ident); ok && k < len(ra) {
+					if tn, ok := info.Defs[id].(*types.TypeName); ok {
+						if tp, ok := tn.Type().(*types.TypeParam); ok {
+							if fr.targs == nil {
+								fr.targs = map[*types.TypeParam]types.Type{}
+							}
+							fr.targs[tp] = ra[k]
+						}
+					}
+				}
+			}
+		}
+	}
 	if recvFL != nil && len(recvFL.List) == 1 && len(recvFL.List[0].Names) == 1 {
 		rv := recv
 		// value receiver: copy; pointer receiver: keep pointer
@@ -307,7 +386,7 @@ func (m *Machine) callBody(pos token.Pos, info *types.Info, env *frame, recvFL *
 		for _, f := range ft.Results.List {
 			for _, n := range f.Names {
 				o := info.Defs[n]
-				fr.declare(o, m.zero(info.TypeOf(f.Type)))
+				fr.declare(o, m.zero(fr.substT(info.TypeOf(f.Type))))
 				resultObjs = append(resultObjs, o)
 			}
 		}
@@ -315,6 +394,25 @@ func (m *Machine) callBody(pos token.Pos, info *types.Info, env *frame, recvFL *
 	c, ret, err := m.execBlock(fr, body.List)
 	if err != nil {
 		return nil, err
+	}
+	if len(fr.defers) > 0 {
+		// a return statement sets the named results before the deferred calls run; they may change them
+		if c == ctrlReturn && ret != nil && len(resultObjs) > 0 {
+			if t, ok := ret.(Tuple); ok && len(t) == len(resultObjs) {
+				for i, o := range resultObjs {
+					*fr.lookup(o) = t[i]
+				}
+			} else if len(resultObjs) == 1 {
+				*fr.lookup(resultObjs[0]) = ret
+			}
+			ret = nil
+		}
+		for i := len(fr.defers) - 1; i >= 0; i-- {
+			d := fr.defers[i]
+			if _, err := m.Call(d.pos, d.fn, d.args); err != nil {
+				return nil, err
+			}
+		}
 	}
 	if c == ctrlReturn && ret != nil {
 		return ret, nil
@@ -438,7 +536,24 @@ func (m *Machine) exec(fr *frame, s ast.Stmt) (ctrl, Value, error) {
 		return 0, nil, err
 	}
 	info := fr.info
+	myLabel := m.curLabel
+	m.curLabel = ""
+	// own: a break/continue that arrives here is meant for this statement (unlabelled, or labelled with
+	// this statement's label); otherwise it travels on
+	own := func() bool {
+		if m.brLabel == "" {
+			return true
+		}
+		if m.brLabel == myLabel {
+			m.brLabel = ""
+			return true
+		}
+		return false
+	}
 	switch s := s.(type) {
+	case *ast.LabeledStmt:
+		m.curLabel = s.Label.Name
+		return m.exec(fr, s.Stmt)
 	case *ast.BlockStmt:
 		return m.execBlock(fr, s.List)
 	case *ast.ExprStmt:
@@ -458,7 +573,7 @@ func (m *Machine) exec(fr *frame, s ast.Stmt) (ctrl, Value, error) {
 			vs := sp.(*ast.ValueSpec)
 			if len(vs.Values) == 0 {
 				for _, n := range vs.Names {
-					fr.declare(info.Defs[n], m.zero(info.TypeOf(n)))
+					fr.declare(info.Defs[n], m.zero(fr.substT(info.TypeOf(n))))
 				}
 				continue
 			}
@@ -536,6 +651,9 @@ func (m *Machine) exec(fr *frame, s ast.Stmt) (ctrl, Value, error) {
 			if c == ctrlReturn {
 				return c, v, nil
 			}
+			if (c == ctrlBreak || c == ctrlContinue) && !own() {
+				return c, nil, nil
+			}
 			if c == ctrlBreak {
 				break
 			}
@@ -603,6 +721,9 @@ func (m *Machine) exec(fr *frame, s ast.Stmt) (ctrl, Value, error) {
 				if err != nil {
 					return nil, err
 				}
+				if (c == ctrlBreak || c == ctrlContinue) && !own() {
+					return nil, undecided(s.Pos(), "labelled branch out of a range over an iterator function")
+				}
 				switch c {
 				case ctrlReturn:
 					retC, retV = c, v
@@ -651,10 +772,41 @@ func (m *Machine) exec(fr *frame, s ast.Stmt) (ctrl, Value, error) {
 			if c == ctrlReturn {
 				return c, v, nil
 			}
+			if (c == ctrlBreak || c == ctrlContinue) && !own() {
+				return c, nil, nil
+			}
 			if c == ctrlBreak {
 				break
 			}
 		}
+		return ctrlNone, nil, nil
+	case *ast.DeferStmt:
+		// the function value and the arguments are evaluated now, the call happens when the function returns
+		if id, ok := ast.Unparen(s.Call.Fun).(*ast.Ident); ok {
+			if _, isB := info.Uses[id].(*types.Builtin); isB {
+				return 0, nil, undecided(s.Pos(), "deferred call of the builtin %s", id.Name)
+			}
+		}
+		fnv, err := m.eval(fr, s.Call.Fun)
+		if err != nil {
+			return 0, nil, err
+		}
+		var args []Value
+		for _, a := range s.Call.Args {
+			v, err := m.eval(fr, a)
+			if err != nil {
+				return 0, nil, err
+			}
+			args = append(args, copyVal(v))
+		}
+		ff := fr
+		for ff != nil && !ff.isFunc {
+			ff = ff.parent
+		}
+		if ff == nil {
+			return 0, nil, undecided(s.Pos(), "defer outside a function body")
+		}
+		ff.defers = append(ff.defers, deferred{s.Pos(), fnv, args})
 		return ctrlNone, nil, nil
 	case *ast.ReturnStmt:
 		if len(s.Results) == 0 {
@@ -678,7 +830,10 @@ func (m *Machine) exec(fr *frame, s ast.Stmt) (ctrl, Value, error) {
 		return ctrlReturn, t, nil
 	case *ast.BranchStmt:
 		if s.Label != nil {
-			return 0, nil, undecided(s.Pos(), "labelled branch")
+			if s.Tok != token.BREAK && s.Tok != token.CONTINUE {
+				return 0, nil, undecided(s.Pos(), "goto")
+			}
+			m.brLabel = s.Label.Name
 		}
 		switch s.Tok {
 		case token.BREAK:
@@ -720,7 +875,7 @@ func (m *Machine) exec(fr *frame, s ast.Stmt) (ctrl, Value, error) {
 				}
 				if b {
 					c, rv, err := m.execBlock(inner, cl.Body)
-					if c == ctrlBreak {
+					if c == ctrlBreak && own() {
 						c = ctrlNone
 					}
 					return c, rv, err
@@ -729,7 +884,7 @@ func (m *Machine) exec(fr *frame, s ast.Stmt) (ctrl, Value, error) {
 		}
 		if deflt != nil {
 			c, rv, err := m.execBlock(inner, deflt.Body)
-			if c == ctrlBreak {
+			if c == ctrlBreak && own() {
 				c = ctrlNone
 			}
 			return c, rv, err
@@ -804,7 +959,7 @@ func (m *Machine) exec(fr *frame, s ast.Stmt) (ctrl, Value, error) {
 			body.declare(o, x)
 		}
 		c, rv, err := m.execBlock(body, chosen.Body)
-		if c == ctrlBreak {
+		if c == ctrlBreak && own() {
 			c = ctrlNone
 		}
 		return c, rv, err
@@ -909,7 +1064,20 @@ func (m *Machine) evalMulti(fr *frame, e ast.Expr, n int) ([]Value, error) {
 					}
 				}
 			}
-			return []Value{m.zero(fr.info.TypeOf(e)), false}, nil
+			// in a comma-ok context the expression's type is the pair (V, bool)
+			vt := fr.info.TypeOf(e)
+			if tup, ok := vt.(*types.Tuple); ok && tup.Len() == 2 {
+				vt = tup.At(0).Type()
+			}
+			return []Value{m.zero(fr.substT(vt)), false}, nil
+		}
+		if _, isNil := x.(NilV); isNil {
+			// a nil map holds nothing
+			vt := fr.info.TypeOf(e)
+			if tup, ok := vt.(*types.Tuple); ok && tup.Len() == 2 {
+				vt = tup.At(0).Type()
+			}
+			return []Value{m.zero(fr.substT(vt)), false}, nil
 		}
 		return nil, undecided(e.Pos(), "comma-ok index on %s", Show(x))
 	case *ast.TypeAssertExpr:
@@ -935,6 +1103,12 @@ func (m *Machine) store(fr *frame, lhs ast.Expr, v Value) error {
 		o := info.ObjectOf(l)
 		if p := fr.lookup(o); p != nil {
 			*p = copyVal(v)
+			return nil
+		}
+		// package-level variables of moq are written by the package's init functions only (writes from
+		// anywhere else are state that outlives a call: outside the vocabulary)
+		if gv, ok := o.(*types.Var); ok && m.inInit && gv.Pkg() != nil && gv.Parent() == gv.Pkg().Scope() && m.Prog.IsMoqPkg(gv.Pkg()) {
+			m.globals[gv] = copyVal(v)
 			return nil
 		}
 		return undecided(l.Pos(), "store to non-local variable %s", l.Name)
@@ -1007,6 +1181,24 @@ func (m *Machine) store(fr *frame, lhs ast.Expr, v Value) error {
 		}
 		if st == nil {
 			return undecided(l.Pos(), "field store through %s", Show(x))
+		}
+		// a promoted field lives in the embedded struct the selection path leads to
+		if si := info.Selections[l]; si != nil {
+			path := si.Index()
+			for _, fi := range path[:len(path)-1] {
+				stt, ok := st.Type.Underlying().(*types.Struct)
+				if !ok || fi >= stt.NumFields() {
+					return undecided(l.Pos(), "store into a promoted field: embedded path")
+				}
+				switch inner := st.Fields[stt.Field(fi).Name()].(type) {
+				case *Struct:
+					st = inner
+				case *Ptr:
+					st = inner.Elem
+				default:
+					return undecided(l.Pos(), "store into a promoted field of %s", Show(inner))
+				}
+			}
 		}
 		st.Fields[l.Sel.Name] = copyVal(v)
 		return nil
@@ -1106,6 +1298,27 @@ func (m *Machine) eval(fr *frame, e ast.Expr) (Value, error) {
 					return &FuncV{Fn: fn, MethodExpr: true, Sel: sel}, nil
 				}
 			}
+			// a pointer-receiver method called on an addressable value that is no struct (a slice or map
+			// held in a variable or field: `m.vars.add(v)` for `func (l *varList) add`): the receiver is
+			// the address of that variable or field
+			if sel.Kind() == types.MethodVal && len(sel.Index()) == 1 {
+				if fn, ok := sel.Obj().(*types.Func); ok {
+					if sig, ok := fn.Type().(*types.Signature); ok && sig.Recv() != nil {
+						if _, ptrRecv := sig.Recv().Type().(*types.Pointer); ptrRecv {
+							xt := info.TypeOf(e.X)
+							_, xIsPtr := xt.Underlying().(*types.Pointer)
+							_, xIsStruct := xt.Underlying().(*types.Struct)
+							if !xIsPtr && !xIsStruct {
+								ref, err := m.eval(fr, &ast.UnaryExpr{OpPos: e.X.Pos(), Op: token.AND, X: e.X})
+								if err != nil {
+									return nil, err
+								}
+								return &FuncV{Fn: fn, Recv: ref}, nil
+							}
+						}
+					}
+				}
+			}
 			x, err := m.eval(fr, e.X)
 			if err != nil {
 				return nil, err
@@ -1184,6 +1397,24 @@ func (m *Machine) eval(fr *frame, e ast.Expr) (Value, error) {
 							st = o.Elem
 						}
 						if st != nil {
+							// a promoted field lives in the embedded struct the selection path leads to
+							if si := info.Selections[sel]; si != nil {
+								path := si.Index()
+								for _, fi := range path[:len(path)-1] {
+									stt, ok := st.Type.Underlying().(*types.Struct)
+									if !ok || fi >= stt.NumFields() {
+										return nil, undecided(e.Pos(), "address of a promoted field: embedded path")
+									}
+									switch inner := st.Fields[stt.Field(fi).Name()].(type) {
+									case *Struct:
+										st = inner
+									case *Ptr:
+										st = inner.Elem
+									default:
+										return nil, undecided(e.Pos(), "address of a promoted field of %s", Show(inner))
+									}
+								}
+							}
 							name := sel.Sel.Name
 							return &Ref{ID: types.ExprString(sel), Get: func() Value { return st.Fields[name] }, Set: func(v Value) { st.Fields[name] = v }}, nil
 						}
@@ -1239,7 +1470,20 @@ func (m *Machine) eval(fr *frame, e ast.Expr) (Value, error) {
 			return nil, err
 		}
 		return m.binop(e.Pos(), e.Op, l, r)
+	case *ast.IndexListExpr:
+		// f[T1, T2]: an explicit instantiation of a generic function is the function
+		if _, isSig := info.TypeOf(e.X).(*types.Signature); isSig {
+			return m.eval(fr, e.X)
+		}
+		return nil, undecided(e.Pos(), "index list expression")
 	case *ast.IndexExpr:
+		// f[T]: an explicit instantiation of a generic function is the function (the type arguments are
+		// bound when it is called)
+		if tv, ok := info.Types[e.Index]; ok && tv.IsType() {
+			if _, isSig := info.TypeOf(e.X).(*types.Signature); isSig {
+				return m.eval(fr, e.X)
+			}
+		}
 		x, err := m.eval(fr, e.X)
 		if err != nil {
 			return nil, err
@@ -1278,7 +1522,7 @@ func (m *Machine) eval(fr *frame, e ast.Expr) (Value, error) {
 					}
 				}
 			}
-			return m.zero(info.TypeOf(e)), nil
+			return m.zero(fr.substT(info.TypeOf(e))), nil
 		case *Sym:
 			return &Unknown{Why: "byte of a symbolic string"}, nil
 		}
@@ -1397,7 +1641,43 @@ func (m *Machine) eval(fr *frame, e ast.Expr) (Value, error) {
 	return nil, undecided(e.Pos(), "expression %T is outside the analysed vocabulary", e)
 }
 
+// runInits executes the init functions of a moq package (once), in source order.
+func (m *Machine) runInits(pkgPath string) error {
+	if m.initDone == nil {
+		m.initDone = map[string]bool{}
+	}
+	if m.initDone[pkgPath] {
+		return nil
+	}
+	m.initDone[pkgPath] = true
+	pk := m.Prog.ByPath[pkgPath]
+	if pk == nil {
+		return nil
+	}
+	for _, f := range pk.Syntax {
+		for _, d := range f.Decls {
+			fd, ok := d.(*ast.FuncDecl)
+			if !ok || fd.Recv != nil || fd.Name.Name != "init" || fd.Body == nil {
+				continue
+			}
+			was := m.inInit
+			m.inInit = true
+			_, err := m.callBody(fd.Pos(), pk.TypesInfo, nil, nil, nil, fd.Type, fd.Body, nil)
+			m.inInit = was
+			if err != nil {
+				return err
+			}
+		}
+	}
+	return nil
+}
+
 func (m *Machine) global(o *types.Var) (Value, error) {
+	if o.Pkg() != nil && m.Prog.IsMoqPkg(o.Pkg()) && !m.inInit {
+		if err := m.runInits(o.Pkg().Path()); err != nil {
+			return nil, err
+		}
+	}
 	if v, ok := m.globals[o]; ok {
 		return v, nil
 	}
@@ -1418,6 +1698,15 @@ func (m *Machine) global(o *types.Var) (Value, error) {
 				vs := sp.(*ast.ValueSpec)
 				for i, n := range vs.Names {
 					if pk.TypesInfo.Defs[n] == o {
+						if len(vs.Values) == 0 {
+							// declared without a value: the zero value (an init function may have filled it)
+							if v, ok := m.globals[o]; ok {
+								return v, nil
+							}
+							v := m.zero(o.Type())
+							m.globals[o] = v
+							return v, nil
+						}
 						if len(vs.Values) != len(vs.Names) {
 							return nil, undecided(n.Pos(), "package-level variable %s has no single initialiser", n.Name)
 						}
@@ -1517,7 +1806,12 @@ func (m *Machine) equal(pos token.Pos, a, b Value) Value {
 		switch b.(type) {
 		case NilV:
 			return true
-		case *Ptr, *List, *Opaque, *Closure, *FuncV, *MapV, *Ref:
+		case *Ptr, *List, *Opaque, *Closure, *FuncV, *MapV, *Ref, *Struct:
+			return false
+		}
+	case *Struct:
+		// a struct value held in an interface (an error value of a struct type) is not nil
+		if _, ok := b.(NilV); ok {
 			return false
 		}
 	case *Ref:
@@ -1758,15 +2052,39 @@ func (m *Machine) composite(fr *frame, e *ast.CompositeLit) (Value, error) {
 		return s, nil
 	case *types.Slice, *types.Array:
 		l := &List{}
+		var elemT types.Type
+		switch ut := u.(type) {
+		case *types.Slice:
+			elemT = ut.Elem()
+		case *types.Array:
+			elemT = ut.Elem()
+		}
+		next := 0
 		for _, el := range e.Elts {
-			if _, ok := el.(*ast.KeyValueExpr); ok {
-				return nil, undecided(e.Pos(), "keyed slice literal")
+			val := el
+			if kv, ok := el.(*ast.KeyValueExpr); ok {
+				// a keyed element: the key is a constant index, later elements go on from there
+				k, isC := constValue(info.Types[kv.Key])
+				ki, isI := k.(int64)
+				if !isC || !isI || ki < 0 || ki > 1<<16 {
+					return nil, undecided(e.Pos(), "keyed slice literal with a key that is not a small constant")
+				}
+				next, val = int(ki), kv.Value
 			}
-			v, err := m.eval(fr, el)
+			v, err := m.eval(fr, val)
 			if err != nil {
 				return nil, err
 			}
-			l.Elems = append(l.Elems, copyVal(v))
+			for len(l.Elems) <= next {
+				l.Elems = append(l.Elems, m.zero(elemT))
+			}
+			l.Elems[next] = copyVal(v)
+			next++
+		}
+		if at, ok := u.(*types.Array); ok {
+			for int64(len(l.Elems)) < at.Len() {
+				l.Elems = append(l.Elems, m.zero(elemT))
+			}
 		}
 		return l, nil
 	case *types.Map:
@@ -1860,6 +2178,50 @@ func (m *Machine) call(fr *frame, e *ast.CallExpr) (Value, error) {
 			args = args[:len(args)-1]
 		default:
 			return nil, undecided(e.Pos(), "spread of %s", Show(l))
+		}
+	}
+	// the type arguments of a generic callee (explicit or inferred), resolved in the caller's bindings
+	var fid *ast.Ident
+	switch f := ast.Unparen(e.Fun).(type) {
+	case *ast.Ident:
+		fid = f
+	case *ast.SelectorExpr:
+		fid = f.Sel
+	case *ast.IndexExpr:
+		switch g := ast.Unparen(f.X).(type) {
+		case *ast.Ident:
+			fid = g
+		case *ast.SelectorExpr:
+			fid = g.Sel
+		}
+	case *ast.IndexListExpr:
+		switch g := ast.Unparen(f.X).(type) {
+		case *ast.Ident:
+			fid = g
+		case *ast.SelectorExpr:
+			fid = g.Sel
+		}
+	}
+	m.pendingTArgs, m.pendingRecvTArgs = nil, nil
+	if fid != nil {
+		if inst, ok := info.Instances[fid]; ok && inst.TypeArgs != nil {
+			for i := 0; i < inst.TypeArgs.Len(); i++ {
+				m.pendingTArgs = append(m.pendingTArgs, fr.substT(inst.TypeArgs.At(i)))
+			}
+		}
+	}
+	// a method of a generic type: the type arguments of the receiver's static type
+	if sel, ok := ast.Unparen(e.Fun).(*ast.SelectorExpr); ok {
+		if si, ok := info.Selections[sel]; ok && si.Kind() == types.MethodVal {
+			rt := info.TypeOf(sel.X)
+			if p, ok := rt.Underlying().(*types.Pointer); ok {
+				rt = p.Elem()
+			}
+			if n, ok := types.Unalias(rt).(*types.Named); ok && n.TypeArgs() != nil {
+				for i := 0; i < n.TypeArgs().Len(); i++ {
+					m.pendingRecvTArgs = append(m.pendingRecvTArgs, fr.substT(n.TypeArgs().At(i)))
+				}
+			}
 		}
 	}
 	return m.Call(e.Pos(), fn, args)
@@ -1960,6 +2322,9 @@ func (m *Machine) builtin(fr *frame, e *ast.CallExpr, name string) (Value, error
 	case "panic":
 		m.Notes = append(m.Notes, Note{Rule: "H-PANIC", Key: "panic@" + m.Prog.Pos(e.Pos()), Pos: e.Pos(), Msg: "explicit panic reached while expanding a template helper"})
 		return nil, undecided(e.Pos(), "panic reached")
+	case "recover":
+		// a path that panics is not interpreted to its end (it is undecided): on the others nothing is recovered
+		return NilV{}, nil
 	case "min", "max":
 		if len(args) == 2 {
 			a, ok1 := args[0].(int64)
@@ -2001,7 +2366,8 @@ func (m *Machine) typeAssert(fr *frame, e *ast.TypeAssertExpr) ([]Value, error) 
 	if e.Type == nil {
 		return nil, undecided(e.Pos(), "type switch guard")
 	}
-	want := types.TypeString(fr.info.TypeOf(e.Type), nil)
+	wantT := fr.substT(fr.info.TypeOf(e.Type))
+	want := types.TypeString(wantT, nil)
 	switch x := x.(type) {
 	case *Opaque:
 		if x.GoType == "" {
@@ -2010,7 +2376,10 @@ func (m *Machine) typeAssert(fr *frame, e *ast.TypeAssertExpr) ([]Value, error) 
 		if x.GoType == want {
 			return []Value{x, true}, nil
 		}
-		if it, isIface := fr.info.TypeOf(e.Type).Underlying().(*types.Interface); isIface {
+		if _, unbound := types.Unalias(wantT).(*types.TypeParam); unbound {
+			return nil, undecided(e.Pos(), "assertion to a type parameter whose type argument is not known here")
+		}
+		if it, isIface := wantT.Underlying().(*types.Interface); isIface {
 			if dt := m.goTypeOf(x.GoType); dt != nil {
 				if types.Implements(dt, it) {
 					return []Value{x, true}, nil
@@ -2105,4 +2474,93 @@ func (m *Machine) embeddedRecv(pos token.Pos, x Value, sel *types.Selection) (Va
 		cur = v
 	}
 	return cur, nil
+}
+
+// dynamicMethod finds the method a struct value (or a pointer to one) has under the given name.
+func (m *Machine) dynamicMethod(recv Value, name string) *types.Func {
+	var t types.Type
+	switch r := recv.(type) {
+	case *Ptr:
+		if r.Elem != nil && r.Elem.Type != nil {
+			t = types.NewPointer(r.Elem.Type)
+		}
+	case *Struct:
+		t = r.Type
+	}
+	if t == nil {
+		return nil
+	}
+	obj, _, _ := types.LookupFieldOrMethod(t, true, nil, name)
+	if f, ok := obj.(*types.Func); ok {
+		return f
+	}
+	// unexported methods are found only with their package
+	if n, ok := types.Unalias(derefType(t)).(*types.Named); ok && n.Obj().Pkg() != nil {
+		obj, _, _ = types.LookupFieldOrMethod(t, true, n.Obj().Pkg(), name)
+		if f, ok := obj.(*types.Func); ok {
+			return f
+		}
+	}
+	return nil
+}
+
+func derefType(t types.Type) types.Type {
+	if p, ok := t.(*types.Pointer); ok {
+		return p.Elem()
+	}
+	return t
+}
+
+// CallMethod calls the method a struct value (or a pointer to one) has under the given name, following
+// promotion through embedded fields the way a selector expression does.
+func (m *Machine) CallMethod(pos token.Pos, recv Value, name string, args []Value) (Value, error) {
+	var st *Struct
+	switch r := recv.(type) {
+	case *Ptr:
+		st = r.Elem
+	case *Struct:
+		st = r
+	}
+	if st == nil || st.Type == nil {
+		return nil, undecided(pos, "method %s of %s", name, Show(recv))
+	}
+	var pkg *types.Package
+	if n, ok := types.Unalias(st.Type).(*types.Named); ok {
+		pkg = n.Obj().Pkg()
+	}
+	obj, index, _ := types.LookupFieldOrMethod(types.NewPointer(st.Type), true, pkg, name)
+	fn, ok := obj.(*types.Func)
+	if !ok {
+		return nil, undecided(pos, "%s has no method %s", Show(recv), name)
+	}
+	cur := st
+	for _, fi := range index[:len(index)-1] {
+		stt, ok := cur.Type.Underlying().(*types.Struct)
+		if !ok || fi >= stt.NumFields() {
+			return nil, undecided(pos, "embedded path of method %s", name)
+		}
+		switch inner := cur.Fields[stt.Field(fi).Name()].(type) {
+		case *Struct:
+			cur = inner
+		case *Ptr:
+			cur = inner.Elem
+		default:
+			return nil, undecided(pos, "embedded receiver of method %s is %s", name, Show(inner))
+		}
+	}
+	return m.CallFunc(pos, fn, &Ptr{Elem: cur}, args)
+}
+
+// substT replaces a type parameter by the type argument the enclosing generic call bound it to.
+func (f *frame) substT(t types.Type) types.Type {
+	tp, ok := types.Unalias(t).(*types.TypeParam)
+	if !ok {
+		return t
+	}
+	for fr := f; fr != nil; fr = fr.parent {
+		if a, ok := fr.targs[tp]; ok {
+			return a
+		}
+	}
+	return t
 }
